@@ -53,6 +53,7 @@ fn main() {
         "c09-salt" => c09::salt_stress(rest),
         "c15-sink" => c15::sink_replay(rest),
         "c11-replay" => c11::replay(rest),
+        "c11-sessions" => c11::sessions(rest),
         "c11-record" => c11::record(rest),
         other => Err(anyhow::anyhow!("unknown subcommand {other}")),
     };
